@@ -492,6 +492,34 @@ class Sym:
         while d[0] == 'un' and d[1] == 'Not':
             d = d[2]
             neg = not neg
+        if not isbool and d[0] != 'discr' and re.match(r'^[ui](8|16|32|64|128|size)$', str(t.get('discr_ty', ''))) and arms and not neg:
+            # `match n { k1 => A, k2 => B, _ => C }` on an integer is the chain `if n == k1 { A } else if n == k2 { B } else { C }`:
+            # record the same decisions the chain would (spelling-independent)
+            oth_live0 = self.b.blocks[oth]['term']['k'] != 'unreachable' or self.b.blocks[oth]['stmts']
+            seq = [(v, tg) for v, tg in arms] + ([(None, oth)] if oth_live0 else [])
+            s_cur = st
+            for idx_, (v, tg) in enumerate(seq):
+                if v is None:
+                    self.run(s_cur, tg)
+                    break
+                c_eq = ('op', 'Eq', d, ('c', v))
+                k_eq = ckey(c_eq)
+                known_eq = None
+                for c0, v0 in s_cur.conds:
+                    if ckey(c0) == k_eq and isinstance(v0, bool):
+                        known_eq = v0
+                if known_eq is not False:
+                    s_hit = s_cur.fork()
+                    if known_eq is None:
+                        s_hit.conds.append((c_eq, True))
+                    self.run(s_hit, tg)
+                if known_eq is True:
+                    break
+                s_next = s_cur.fork()
+                if known_eq is None:
+                    s_next.conds.append((c_eq, False))
+                s_cur = s_next
+            return
         key = ckey(d)
         known = None
         for c, v in st.conds:
